@@ -11,13 +11,13 @@ Open Scope N_scope.
    a union member, no bounds on a scalar that is directly a map value), every naming option vector and
    every position, the generated class tree is the same in both styles *)
 Theorem C14_constraint_style_same_tree :
-  forall o s p, place_free p s = true -> gen o true p s = gen o false p s.
+  forall o rq s p, place_free p s = true -> gen o true rq p s = gen o false rq p s.
 Proof. exact gen_fc_invariant. Qed.
 
 (* outside that sub-language the statement is false of the code as it is: in the field-constraints style
    the bound of a map value is dropped, so the two styles accept different instances (known finding) *)
 Theorem C14_constraint_style_refuted :
-  exists s v, accepts (gen schema_opts true PTop s) v = true /\ accepts (gen schema_opts false PTop s) v = false.
+  exists s v, accepts (gen schema_opts true false PTop s) v = true /\ accepts (gen schema_opts false false PTop s) v = false.
 Proof.
   exists (SObj [(of_string "m", (true, SMap (SInt {| c_min := Some 2%Z; c_max := None; c_xmin := XNone; c_xmax := XNone; c_mult := None |})))] false).
   exists (VObj [(of_string "m", VObj [(of_string "k", VInt 0%Z)])]).
